@@ -106,6 +106,13 @@ def huge_real_inputs():
     return out
 
 
+def _open_seq():
+    from pyasn1.type import namedtype, opentype
+    return univ.Sequence(componentType=namedtype.NamedTypes(
+        namedtype.NamedType('id', univ.Integer()),
+        namedtype.NamedType('blob', univ.Any(), openType=opentype.OpenType('id', {1: univ.Integer(), 2: univ.OctetString()}))))
+
+
 def _huge_specs():
     from pyasn1.type import constraint, namedtype, namedval
     return {
@@ -119,6 +126,7 @@ def _huge_specs():
             namedtype.NamedType('a', univ.Integer().subtype(subtypeSpec=constraint.ValueRangeConstraint(0, 10))),
             namedtype.OptionalNamedType('b', univ.OctetString()))),
         'OCTET STRING': univ.OctetString(),
+        'SEQUENCE { id INTEGER, blob ANY DEFINED BY id } resolved': (_open_seq(), {'decodeOpenTypes': True}),
     }
 
 
@@ -187,6 +195,10 @@ INT_STR_LIMIT = 4300      # CPython's default sys.get_int_max_str_digits() since
 
 def run_input(res, sc, data, T, schema, origin, strlimit=False):
     feats0 = {'origin:' + origin, 'spec:' + ('none' if T is None else 'given')}
+    dkw = {}
+    if isinstance(schema, tuple):
+        schema, dkw = schema           # a guiding type that comes with decoder options (open-type resolution)
+        feats0.add('decoder-options:' + ','.join(sorted(dkw)))
     if strlimit:
         feats0 |= {'huge-integer-field', 'interpreter-int-str-limit'}
     n = len(data)
@@ -207,7 +219,7 @@ def run_input(res, sc, data, T, schema, origin, strlimit=False):
                     # the interpreter's default: int <-> str conversions beyond 4300 digits raise ValueError
                     sys.set_int_max_str_digits(INT_STR_LIMIT)
                 if mode == 'oneshot':
-                    r = dec.decode(stream, asn1Spec=schema) if schema is not None else dec.decode(stream)
+                    r = dec.decode(stream, asn1Spec=schema, **dkw) if schema is not None else dec.decode(stream)
                     if not (isinstance(r, tuple) and len(r) == 2):
                         outcome = 'bad-shape'
                         res.witness('oneshot:returned-non-tuple', feats, case, repr(r)[:100])
@@ -222,7 +234,7 @@ def run_input(res, sc, data, T, schema, origin, strlimit=False):
                         else:
                             outcome = 'ok'
                 else:
-                    sd = dec.StreamingDecoder(stream, asn1Spec=schema) if schema is not None else dec.StreamingDecoder(stream)
+                    sd = dec.StreamingDecoder(stream, asn1Spec=schema, **dkw) if schema is not None else dec.StreamingDecoder(stream)
                     k = 0
                     outcome = 'ok'
                     for x in sd:
@@ -446,6 +458,36 @@ def run_shard(shard, tier, seed):
                             run_input(res, sc, data, token, sch, 'constrained-type')
                     res.see('constrained-type-cases')
                     continue
+                if rng.random() < 0.06:
+                    # guiding types with an open-type field, resolution switched on: valid encodings (every governing
+                    # value of the map, and one outside it) and mutations of them
+                    from . import c12, c18
+                    oc = c12.opentype_case(rng, tier)
+                    if oc is None:
+                        continue
+                    _, container, govkind, shape, anytag, tmap, vals, cname = oc
+                    enc, ekw = c18.CODECS[cname][0], c18.CODECS[cname][1]
+                    try:
+                        sch = c18.make_schema(container, govkind, shape, anytag, tmap)
+                        encs = []
+                        for (g, Tin), vv in zip(tmap, vals):
+                            val = sch.clone()
+                            val['gov'] = g
+                            if shape == 'single':
+                                val['blob'] = B.value(Tin, vv)
+                            else:
+                                val['blob'].clear()
+                                val['blob'].append(B.value(Tin, vv))
+                            encs.append(enc(val, **ekw))
+                    except Exception:
+                        continue
+                    token = ('opentype', container, govkind, shape, anytag, tmap)
+                    for e in encs:
+                        for data in (e, C.mutate(rng, e)[1], C.mutate(rng, e)[1]):
+                            if len(data) <= 1500:
+                                run_input(res, sc, data, token, (sch, {'decodeOpenTypes': True}), 'open-type')
+                    res.see('open-type-cases')
+                    continue
                 if r < 0.62:
                     T, v = C.gen_case(rng, tier, any_maker=R.ber_any_maker)
                     e = R.ber_variant(T, v, rng)[0] if rng.random() < 0.5 else \
@@ -500,7 +542,10 @@ def replay(case):
     sc = M.StepCounter()
     sc.start()
     try:
-        if isinstance(T, (tuple, list)) and T and T[0] == 'constrained':
+        if isinstance(T, (tuple, list)) and T and T[0] == 'opentype':
+            from . import c18
+            schema = (c18.make_schema(*T[1:6]), {'decodeOpenTypes': True})
+        elif isinstance(T, (tuple, list)) and T and T[0] == 'constrained':
             from . import c10
             schema = c10.cschema(T[1], dict(T[2]))
         else:
